@@ -14,7 +14,9 @@ Definition QA : akern Q :=
      a_demand_met := An_demand_met;
      a_demands_ratio := An_demands_ratio;
      a_nema := An_nema;
-     a_minutes := An_minutes |}.
+     a_minutes := An_minutes;
+     a_energy_cost := An_energy_cost;
+     a_demand_charge := An_demand_charge |}.
 
 Record c18case := {
   c_traj : traj (F:=Q);
@@ -26,7 +28,8 @@ Record c18case := {
   i_requested : Q; i_delivered : Q; i_proportion : option Q;
   i_met : list (Q * option Q);                      (* threshold -> proportion_of_demands_met *)
   i_nema : list (list Z * option (list (option Q))); (* phase ids -> current_unbalance (None = raises; inner None = nan) *)
-  i_minutes : list Q                                 (* (datetimes_array - start) in minutes *)
+  i_minutes : list Q;                                (* (datetimes_array - start) in minutes *)
+  i_costs : list (list Q * Q * Q * Q)                (* prices, demand-charge rate of the applicable tariff -> energy_cost, demand_charge *)
 }.
 
 Definition Qlist_close (a b : list Q) : bool := list_eqb Qclose a b.
